@@ -1,7 +1,9 @@
 """C10 -- the AArch64 parser recovers every line and operand exactly as written.
 
-Theorems (coq/Props/C10.v): lexer/parse round trip of the hand-written parser model over the written
-   syntax (all trees, all layouts), exclusivity of the line kinds, parse_file numbering/text/count.
+Theorems (coq/Props/C10.v): parse_render_line_partial -- parse_line (render lay trail l) = Parsed (denote l) for all
+   written lines of the sub-language and all layouts (lexer lemma lex_render + token-level lemma parse_tokens_line);
+   the full-strength statement refuted with four witness lines; exclusivity of the line kinds; parse_file
+   numbering/text/count.
 X: random written syntax trees are rendered with random layouts (Python mirror of the Coq `render`; every
    shard re-checks `render lay tree = line`, well-formedness and `show (denote tree)` in Coq), parsed by the
    real ParserAArch64 and by the model; a malformed stream (token deletions/duplications/swaps) checks
@@ -320,7 +322,10 @@ def run(ctx):
         "the characters of a line are code points < 256 (Coq strings are byte strings)",
     ]
     ctx.assumptions += [
-        "round-trip theorem: registers numbered 0-31, operands separated by commas, memory operand last, condition code not first",
+        "round-trip theorem parse_render_line_spacing: wline_okb false (registers 0-31, <= 5 comma-separated operands, memory operand last, "
+        "condition code not first; excluded and refuted: label with shift-operator prefix after an operand, sxtx, directive comment with a "
+        "comma after an alphabetic parameter), spacing_okb (white space only, non-empty where tokens would fuse), cond_tight (no white space "
+        "directly after a condition code -- refuted otherwise)",
         "the comment of a directive line and directive parameters are not modelled (kind, name, number and text are)",
     ]
     ctx.ensure_static()
